@@ -13,7 +13,7 @@ from vmon.libutil import monitored, xtce_element
 
 LEVEL = "exploration"
 SHARDS = {"quick": 16, "thorough": 16}
-MUST = ["len.lookup-zero", "len.fractional-reference", "string.whole", "string.term", "string.lead", "binary", "len.fixed", "len.dyn", "len.lookup", "len.zero", "len.not-multiple-of-8",
+MUST = ["sequence.cases", "len.lookup-zero", "len.fractional-reference", "string.whole", "string.term", "string.lead", "binary", "len.fixed", "len.dyn", "len.lookup", "len.zero", "len.not-multiple-of-8",
         "offset.unaligned", "charset.multi", "charset.single", "route.ctor", "route.xml", "expected.errors", "dyn.calibrated", "dyn.raw"]
 RULE = ("case = (string/binary encoding IR, values of the referenced length parameters, content bits, bit offset, "
         "construction route). Directed grid: 8 concrete character sets (+ generic UTF-16/UTF-32 with byteOrder) x "
@@ -242,6 +242,32 @@ def run(ctx):
                 fb = rng.choice(["0" * L, "1" * L, "".join(rng.choice("01") for _ in range(L))])
                 route = routes[offset % 2]
                 run_case(ctx, rng, t, libs[route], assign, fb, offset, route)
+    # ---- sequences on ONE parameter-type object: lookups / references resolve per packet, nothing may be remembered ----------
+    lk = ir.Lookup((((ir.Comparison("MODE", "2"),), 32), ((ir.Comparison("MODE", "1", ">=", False),), 16), ((ir.Comparison("FLAG", "ON"),), 8)))
+    seq_assigns = [{"MODE": ("int", m, m), "FLAG": ("str", f, 1 if f == "ON" else 0)} for m in (1, 2, 0, 2, 1, 3, 2) for f in ("ON", "OFF")]
+    for kind, enc in (("binary", ir.BinEnc(lk)), ("string", ir.StrEnc("US-ASCII", lk)),
+                      ("binary", ir.BinEnc(ir.DynLen("MODE", False, 8, 8))), ("string", ir.StrEnc("UTF-8", ir.DynLen("MODE", True, 8, 0), "3b"))):
+        item += 1
+        if not ctx.mine(item):
+            continue
+        t = ir.PType("T", kind, enc, None)
+        for route in routes:
+            lib = make(ctx, rng, t, route)
+            for rep in range(3):
+                order = list(seq_assigns)
+                rng.shuffle(order)
+                for asg in order:
+                    asg = dict(asg)
+                    if isinstance(enc.length, ir.DynLen):
+                        asg["MODE"] = ("float", float(asg["MODE"][1] + 1), asg["MODE"][1] + 1) if enc.length.calibrated else asg["MODE"]
+                    try:
+                        env = {k: ref.Val(v[1], v[2], v[0]) for k, v in asg.items()}
+                        L = ref.length_of(enc.length, env)
+                    except ref.ModelError:
+                        L = 8
+                    fb = gen.string_bits(rng, enc, L) if kind == "string" else "".join(rng.choice("01") for _ in range(L))
+                    ctx.count("sequence.cases")
+                    run_case(ctx, rng, t, lib, asg, fb, rng.randrange(8), route, "sequence-on-one-object")
     # ---- seeded random -----------------------------------------------------------------------------------------------------
     for i in range(ctx.size(10_000, 3_000_000) // ctx.nshards):
         charset = rng.choice(CHARSETS)
